@@ -383,6 +383,65 @@ def dcContains (C : Cls) (s : State V) (k : String) : Bool :=
   | none => false
   | some f => s.attrs.has f.attname && !f.noOutput
 
+/-! ### inheritance: which accessor an attribute name reaches
+
+`ClassParser.assign_properties` (cls.py:312-343) runs for every class (`__init_subclass__`, schema.py:74-91,
+139-155) and installs, for *every* non-property field of that class — declared in its body or taken over from a
+base by `generate_from_bases` (cls.py:223-257) — a property whose setter / deleter / getter close over that
+class's own field object and (DataClass) that class's own options.  Python then finds the accessor along the
+MRO, most derived class first. -/
+
+structure Accessor where
+  attname : String
+  field   : Field
+  opts    : Opts
+  deriving Repr, DecidableEq
+
+/-- the loop of `assign_properties`: no field is skipped except the `@property` ones (:321-323) -/
+def assignProperties (C : Cls) : List Accessor :=
+  (C.fields.filter (fun f => !f.isProp)).map (fun f => { attname := f.attname, field := f, opts := C.opts })
+
+/-- attribute lookup along the MRO (own class first) -/
+def resolveAccessor : List (List Accessor) → String → Option Accessor
+  | [], _ => none
+  | t :: ts, a =>
+    match t.find? (fun x => x.attname == a) with
+    | some x => some x
+    | none => resolveAccessor ts a
+
+/-- the body of the setter closure of `make_setter` (cls.py:260-274) for the accessor that was found -/
+def accessorSet (W : World V) (s : State V) (x : Accessor) (v : V) : State V × Res V :=
+  if x.opts.immutable || x.field.immutable then (s, .err .update)
+  else match W.parse x.field.name v with
+    | none => (s, .err .parse)
+    | some pv => ({ s with attrs := s.attrs.set x.field.attname pv }, .ok none)
+
+/-- the body of the deleter closure of `make_deleter` (cls.py:277-300) -/
+def accessorDel (s : State V) (x : Accessor) : State V × Res V :=
+  if x.opts.immutable || x.field.immutable then (s, .err .delete)
+  else if x.field.required && !x.opts.ignoreRequired then (s, .err .delete)
+  else if !s.attrs.has x.field.attname then (s, .err .delete)
+  else ({ s with attrs := s.attrs.del x.field.attname }, .ok none)
+
+/-- `obj.a = v` / `del obj.a` on an instance of a DataClass whose MRO carries the accessor tables `mro` -/
+def dcSetattrVia (mro : List (List Accessor)) (W : World V) (s : State V) (a : String) (v : V) : State V × Res V :=
+  match resolveAccessor mro a with
+  | some x => accessorSet W s x v
+  | none => ({ s with attrs := s.attrs.set a v }, .ok none)
+
+def dcDelattrVia (mro : List (List Accessor)) (s : State V) (a : String) : State V × Res V :=
+  match resolveAccessor mro a with
+  | some x => accessorDel s x
+  | none => if s.attrs.has a then ({ s with attrs := s.attrs.del a }, .ok none) else (s, .err .attr)
+
+/-- `obj.a = v` on a Schema instance: the accessor is `partial(__field_setter__, field=…)` (cls.py:329-331);
+the options are the instance's own (schema.py:317) -/
+def setattrVia (mro : List (List Accessor)) (C : Cls) (W : World V) (s : State V) (a : String) (v : V) :
+    State V × Res V :=
+  match resolveAccessor mro a with
+  | some x => fieldSetter C W s x.field v
+  | none => setattr C W s a v
+
 /-- the table the model above rests on: which `dict` mutators `Schema` defines itself (T1 table,
 re-read from the source with `ast` on every run by harness/c07.py `extra_static`) -/
 def overridden : List String :=
